@@ -1196,7 +1196,7 @@ class AwareASTNode(DataClassSerializeMixin):
 
         if self.parent is None:
             return 0
-        elif relative_to is not None and self.parent == relative_to:
+        elif relative_to is not None and self.parent is relative_to:
             return 1
         else:
             return self.parent.get_depth(relative_to=relative_to, check_ancestor=False) + 1
@@ -1244,7 +1244,7 @@ class AwareASTNode(DataClassSerializeMixin):
         """Returns True if this node is an ancestor of `node`."""
         if node.parent is None:
             return False
-        elif node.parent == self:
+        elif node.parent is self:
             return True
         else:
             return self.is_ancestor(node.parent)
